@@ -100,6 +100,9 @@ pub struct RangeTrace {
     /// (`from_raw_parts`) before decoding the symbols at these indices
     #[serde(default)]
     pub reassemble_at: Vec<usize>,
+    /// representation in which model i is handed to the coders (missing = the plain owner)
+    #[serde(default)]
+    pub reprs: Vec<Repr>,
 }
 
 type Cb<W> = Box<dyn FnMut(W)>;
@@ -309,7 +312,8 @@ fn exec_cfg<C: Ws>(t: &RangeTrace, ctx: &mut Ctx, skip_inspect: bool) -> Result<
     let built: Vec<Option<Built>> = t
         .models
         .iter()
-        .map(|s| if (s.pb as u32) <= C::WB { build_caught(s, Repr::Plain) } else { None })
+        .enumerate()
+        .map(|(i, s)| if (s.pb as u32) <= C::WB { build_caught(s, t.reprs.get(i).cloned().unwrap_or(Repr::Plain)) } else { None })
         .collect();
     let model = |m: usize| -> Option<&Built> { built.get(m).and_then(|b| b.as_ref()) };
     let prefix: Vec<u64> = t.prefix.iter().map(|&w| w_to(w_from::<C::W>(w))).collect();
@@ -406,7 +410,7 @@ fn exec_cfg<C: Ws>(t: &RangeTrace, ctx: &mut Ctx, skip_inspect: bool) -> Result<
             RangeOp::Enc { sym, m } => {
                 let Some(b) = model(*m) else { ctx.stats.hit("skipped-op"); continue };
                 let Some((cum, prob)) = (if b.can_encode() { b.lcp64(*sym) } else { None }) else { ctx.stats.hit("skipped-op"); continue };
-                if ctx.on("C09") {
+                if ctx.on("C09") && message.len() <= 2000 {
                     // fault enumeration at this position, on clones: a catalogue of
                     // out-of-support symbols for the model about to be used
                     let lo = *b.support.iter().min().unwrap();
@@ -788,9 +792,20 @@ fn exec_cfg<C: Ws>(t: &RangeTrace, ctx: &mut Ctx, skip_inspect: bool) -> Result<
         }
         Source::FallibleIter => {
             let it = stored_w[start..].to_vec().into_iter().map(Ok::<C::W, ()>);
-            match RangeDecoder::<C::W, C::S, _>::with_backend(FallibleIteratorReadWords::new(it)) {
-                Ok(d) => consume!(d, false, "FallibleIteratorReadWords"),
-                Err(()) => {}
+            if stored_w.len() & 1 == 1 {
+                // a stream without a usable size hint (file, socket, `iter::from_fn`)
+                let mut it = it;
+                let opaque = std::iter::from_fn(move || it.next());
+                ctx.stats.hit("probe-iterator-without-size-hint");
+                match RangeDecoder::<C::W, C::S, _>::with_backend(FallibleIteratorReadWords::new(opaque)) {
+                    Ok(d) => consume!(d, false, "FallibleIteratorReadWords(from_fn)"),
+                    Err(()) => {}
+                }
+            } else {
+                match RangeDecoder::<C::W, C::S, _>::with_backend(FallibleIteratorReadWords::new(it)) {
+                    Ok(d) => consume!(d, false, "FallibleIteratorReadWords"),
+                    Err(()) => {}
+                }
             }
         }
         Source::QStore => {
@@ -1157,5 +1172,10 @@ pub fn generate(seed: u64, prop: &str, thorough: bool) -> RangeTrace {
     } else {
         Vec::new()
     };
-    RangeTrace { cfg, sink, prefix, models, ops, source, suffix, seeks, expect: None, reassemble_at }
+    let reprs: Vec<Repr> = if prop == "C09" && bias.chance(1, 2) {
+        models.iter().map(|m| { let e = crate::skew::reprs_for(m).0; *bias.pick(&e) }).collect()
+    } else {
+        Vec::new()
+    };
+    RangeTrace { cfg, sink, prefix, models, ops, source, suffix, seeks, expect: None, reassemble_at, reprs }
 }
